@@ -47,13 +47,13 @@ CHECKS = {
         technique=E2 + "; RNG replaced by its contract (fresh quantified symbols)",
     ),
     "C17": dict(
-        text="Fold loops of SequentialModel/ConfigurableModel/CompositeConstraint/apply_constraint_chain: verification conditions generated from the real AST with uninterpreted stages and an UNBOUNDED stage count (invariant initiation/preservation/post, one call per stage in order, argument forwarding) discharged by z3. The real forward() methods of sequential, DeepJSCC, channel-code, Wyner-Ziv (all 16 presence combinations), feedback (1..5 rounds) and multiple-access models (1..3 users, shared/separate layouts, symbolic tensors) are executed with uninterpreted recording stubs, so the order/exactly-once/argument claims hold for all stage functions per enumerated size. ParallelModel: the thread pool is replaced by its contract and EVERY completion order admissible for the worker count (n <= 4 quick / 5 thorough, workers 1, 2, n, default) is enumerated, with and without a failing branch; refuting orders are replayed on the real ThreadPoolExecutor with event-gated branches. BranchingModel: all 2^n truth assignments of uninterpreted conditions. add_step/remove_step of ConfigurableModel and ParallelModel: list-model VCs from the real AST over z3 sequences of UNBOUNDED length (view' = view ++ [s]; view' = view without position i; TypeError / IndexError before any mutation). Histories reuse one stage object at several positions; the multiple-access model is also run with an aliasing pass-through encoder, one tensor object for all users and two consecutive calls (inputs unmodified).",
+        text="Fold loops of SequentialModel/ConfigurableModel/CompositeConstraint/apply_constraint_chain: verification conditions generated from the real AST with uninterpreted stages and an UNBOUNDED stage count (invariant initiation/preservation/post, one call per stage in order, argument forwarding) discharged by z3. The real forward() methods of sequential, DeepJSCC, channel-code, Wyner-Ziv (all 16 presence combinations), feedback (1..5 rounds) and multiple-access models (1..3 users, shared/separate layouts, symbolic tensors) are executed with uninterpreted recording stubs, so the order/exactly-once/argument claims hold for all stage functions per enumerated size. ParallelModel: the thread pool is replaced by its contract and EVERY completion order admissible for the worker count (n <= 4 quick / 5 thorough, workers 1, 2, n, default) is enumerated, with and without a failing branch; refuting orders are replayed on the real ThreadPoolExecutor with event-gated branches. BranchingModel: all 2^n truth assignments of uninterpreted conditions. add_step/remove_step of ConfigurableModel and ParallelModel: list-model VCs from the real AST over z3 sequences of UNBOUNDED length (view' = view ++ [s]; view' = view without position i; TypeError / IndexError before any mutation). Histories reuse one stage object at several positions; the multiple-access model is also run with an aliasing pass-through encoder, one tensor object for all users and two consecutive calls (inputs unmodified). Every SequentialModel subclass runs the inherited fold on its edited stage list (closed); ParallelModel schedules also on the real thread pool with event-forced completion orders.",
         note="Trusted: concurrent.futures contract as stated in DESIGN 4.2 (schedules are those the contract admits, not observed timings); free term algebra of stubs; foldvc AST translation. Add/remove-step histories: by induction over the proved mutator contracts; exhaustive histories to length 3/4 as a bounded cross-check.",
         design="7/C17",
         technique="contracts on the real forward() methods: unbounded fold-loop VCs from the AST (z3, uninterpreted stages); execution with uninterpreted stubs; thread pool replaced by its contract with exhaustive admissible completion orders",
     ),
     "C05": dict(
-        text="demod(mod(bits)) == bits and the symbol count are discharged for ALL bit sequences of the enumerated lengths (1..3 symbols; all ordered pairs/triples for schemes with memory) by symbolic execution of the real modulator (table lookup = ITE over the real constellation buffer) and demodulator (nearest point decided on exact rationals of the stored floats), for every scheme/order/labelling/normalisation configuration and 1-D/batched layouts; the dependency obligations (symbol i depends on bit group i only; the decision is per symbol, for all received y) extend the claim from the enumerated lengths to long sequences. DPSK hard decisions use atan2: bits are concretised by forking (still all bit patterns). Registry: ground. Long sequences: bounded. Round trips of the schemes with memory also on objects that were used in training mode and then reset.",
+        text="demod(mod(bits)) == bits and the symbol count are discharged for ALL bit sequences of the enumerated lengths (1..3 symbols; all ordered pairs/triples for schemes with memory) by symbolic execution of the real modulator (table lookup = ITE over the real constellation buffer) and demodulator (nearest point decided on exact rationals of the stored floats), for every scheme/order/labelling/normalisation configuration and 1-D/batched layouts; the dependency obligations (symbol i depends on bit group i only; the decision is per symbol, for all received y) extend the claim from the enumerated lengths to long sequences. DPSK hard decisions use atan2: bits are concretised by forking (still all bit patterns). Registry: ground. Long sequences: bounded. Round trips of the schemes with memory also on objects that were used in training mode and then reset. Alternative constructor options (DPSK bits_per_symbol / gray_coded aliases, real-valued BPSK output, pi/4-QPSK soft_output flag) as closed exhaustive obligations; symbolic round trip also for the 32- and 64-point schemes.",
         note="Trusted: vk engine; floats as reals with exact float32 table values. Known findings (pinned by tests): pi/4-QPSK treats short 1-D inputs as symbol indices and returns indices from 1-D hard demodulation.",
         design="7/C05",
         technique=E2,
@@ -84,7 +84,7 @@ CHECKS = {
         technique=E2 + "; RNG replaced by its contract; coefficient algebra + moment lemma",
     ),
     "C13": dict(
-        text="Real FlatFadingChannel: with supplied csi/noise y == h.x + n exactly and shape preserved (1-D, 2-D, 4-D); block expansion: coefficient of x[b,i] is the symbol of block i // T for all L in 1..7 x T in 1..L+1; distinct blocks/batch items use disjoint RNG symbols; second moments by the moment calculus: Rayleigh E|h|^2 = 1, Rician |LOS|^2 = K/(K+1), scattered 1/(K+1), ratio K (symbolic K >= 0); noise stage calibrated relative to mean|h.x|^2 - discharged for all inputs and draws per shape.",
+        text="Real FlatFadingChannel: with supplied csi/noise y == h.x + n exactly and shape preserved (1-D, 2-D, 4-D); block expansion: coefficient of x[b,i] is the symbol of block i // T for all L in 1..7 x T in 1..L+1; distinct blocks/batch items use disjoint RNG symbols; second moments by the moment calculus: Rayleigh E|h|^2 = 1, Rician |LOS|^2 = K/(K+1), scattered 1/(K+1), ratio K (symbolic K >= 0); noise stage calibrated relative to mean|h.x|^2 - discharged for all inputs and draws per shape. Rayleigh/Rician generators also with a stray shadowing sigma (documented as unused).",
         note="Assumed: RNG laws; log-normal fading: structure only. Shapes are small and enumerated.",
         design="7/C13",
         technique=E2 + "; RNG replaced by its contract; coefficient algebra + moment lemma",
@@ -97,7 +97,7 @@ CHECKS = {
         engine="vk-E1-vcgen",
     ),
     "C06": dict(
-        text="For symbolic received points y in C (PAM/BPSK: as their code expects) and symbolic noise variance > 0, constellation and labels read from the real demodulator: hard decision = a point at minimum Euclidean distance (for all y); soft output llr_k == kappa.(min over points labelled 1 - min over points labelled 0)/sigma^2 with kappa > 0 read off one evaluation and then PROVED for all y, sigma^2 (scalar, per-symbol); sign agrees with the hard decision; llr scales as 1/sigma^2 - for BPSK, QPSK, PSK <= 32, QAM <= 64, PAM <= 64, OQPSK, pi/4-QPSK (both tables); DPSK family on the decision variable z (helper contract + modular proof of forward). DPSK hard decisions (atan2) and 64-PSK/256-QAM identity clauses: bounded dense grids. pi/4-QPSK with carried phase: after an odd or even number of previously consumed symbols (default training mode) hard and soft output use the constellation of the absolute symbol position, for every y.",
+        text="For symbolic received points y in C (PAM/BPSK: as their code expects) and symbolic noise variance > 0, constellation and labels read from the real demodulator: hard decision = a point at minimum Euclidean distance (for all y); soft output llr_k == kappa.(min over points labelled 1 - min over points labelled 0)/sigma^2 with kappa > 0 read off one evaluation and then PROVED for all y, sigma^2 (scalar, per-symbol); sign agrees with the hard decision; llr scales as 1/sigma^2 - for BPSK, QPSK, PSK <= 32, QAM <= 64, PAM <= 64, OQPSK, pi/4-QPSK (both tables); DPSK family on the decision variable z (helper contract + modular proof of forward). DPSK hard decisions (atan2) and 64-PSK/256-QAM identity clauses: bounded dense grids. pi/4-QPSK with carried phase: after an odd or even number of previously consumed symbols (default training mode) hard and soft output use the constellation of the absolute symbol position, for every y. Closed obligation: the table every demodulator decides against is the table of the modulator built with the same options (all orders, every option spelling).",
         note="Trusted: vk engine; the sound generalisation step in c06.py (nonlinear monomials abstracted by fresh reals, accepted only on unsat; refutations always come from the exact claim and are replayed natively). Floats as reals; float32 tables exact.",
         design="7/C06",
         technique=E2 + "; nearest-point / max-log queries linearised by cancelling |y|^2",
@@ -109,7 +109,7 @@ CHECKS = {
         technique=E2,
     ),
     "C10": dict(
-        text="Wagner decoder: for EVERY real input the output is a maximum-likelihood codeword of the SPC code (codebook enumerated, z3), k <= 5, batched and multi-block layouts, plus the noise-free clause. Min-sum LDPC: the check-node update equals alpha.prod sign.min|.| with the offset floored at zero per edge, output shape (B, edges), scale invariance, and noise-free decoding for symbolic message and magnitude (n <= 8, 1 and 3 iterations). BP index structures (cv_order, ext_ce, marg_ec, idx_mess_t) as ground obligations. Soft Reed-Muller noise-free clause symbolically for m <= 3. Sum-product BP (complex log2 / 2^x) and larger RM codes: bounded stand-ins (all codewords at magnitudes 0.5..50; exact posteriors on cycle-free graphs by enumeration).",
+        text="Wagner decoder: for EVERY real input the output is a maximum-likelihood codeword of the SPC code (codebook enumerated, z3), k <= 5, batched and multi-block layouts, plus the noise-free clause. Min-sum LDPC: the check-node update equals alpha.prod sign.min|.| with the offset floored at zero per edge, output shape (B, edges), scale invariance, and noise-free decoding for symbolic message and magnitude (n <= 8, 1 and 3 iterations). BP index structures (cv_order, ext_ce, marg_ec, idx_mess_t) as ground obligations. Soft Reed-Muller noise-free clause symbolically for m <= 3. Sum-product BP (complex log2 / 2^x) and larger RM codes: bounded stand-ins (all codewords at magnitudes 0.5..50; exact posteriors on cycle-free graphs by enumeration). Variable-node update and marginalisation (the linear half of every BP / min-sum iteration) for all real messages.",
         note="Trusted: vk engine incl. the scoped piecewise-linear rewriting in vk/ops_soft.py. Floats as reals (message clipping stated as precondition).",
         design="7/C10",
         technique=E2 + "; bounded native stand-in for sum-product BP",
